@@ -181,6 +181,18 @@ class Arr(Sort):
         return ref
 
 
+class IntSeq(Sort):
+    """python list of ints with symbolic length"""
+
+    def make(self, ex, st, name):
+        from .values import SeqContent
+        n = z3.Int(fresh_name(name + '.len'))
+        st.pc.append(n >= 0)
+        ref = Ref(name)
+        st.heap[ref.id] = SeqContent(n, z3.Const(fresh_name(name), z3.ArraySort(z3.IntSort(), z3.IntSort())), 'seq')
+        return ref
+
+
 class Tup(Sort):
     def __init__(self, *sorts):
         self.sorts = sorts
